@@ -154,7 +154,9 @@ func newTree(c cfg) (*tree, error) {
 		LeafLoadBalancing:        c.balance,
 	}
 	si := sop.NewStoreInfo(so)
-	if si.SlotLength != c.slot {
+	// (an odd requested slot length is a valid option; whatever NewStoreInfo makes of it, the tree it builds has to
+	// be a correct ordered collection - the splitting code assumes an even number)
+	if si.SlotLength != c.slot && c.slot%2 == 0 {
 		return nil, fmt.Errorf("NewStoreInfo changed slot length %d to %d", c.slot, si.SlotLength)
 	}
 	r := newRepo()
